@@ -71,6 +71,12 @@ def r18_1(run):
             if els and all(e[0] == "kv" and e[1][0] == "c" and e[2][0] == "call" and e[2][1][0] == "attr" and e[2][1][2] == "get"
                            and e[2][2][:1] == (e[1],) for e in els):
                 fw = sorted(e[1][1] for e in els)
+    if fw is None:
+        # the same copies written as explicit stores `branch_params[<name>] = locals().get(<name>)` (loops over displays are unrolled)
+        st_ = [e for e in r0.stores() if len(e.index) == 1 and e.index[0][0] == "c" and isinstance(e.index[0][1], str)
+               and e.value[0] == "call" and e.value[1][0] == "attr" and e.value[1][2] == "get" and e.value[2][:1] == (e.index[0],)]
+        if st_:
+            fw = sorted(e.index[0][1] for e in st_)
     run.ob("forwarding-list-found", fw is not None and len(fw) >= 24, "names copied from the signature into branch_params: %s" % (fw,), w)
     fw = fw or []
     fwx = {}
@@ -99,8 +105,11 @@ def r18_1(run):
         keys = {}
         for pn, prefix in (("include_comp", "include_"), ("respect_status", "respect_status_"), ("weight_getter", "weighting_")):
             v = args.get(pn)
-            ks = [x[2][0][1] for x in walk(v) if x[0] == "call" and x[1][0] == "attr" and x[1][2] == "get" and x[2] and x[2][0][0] == "c"
-                  and isinstance(x[2][0][1], str) and x[2][0][1].startswith(prefix)] if v is not None else []
+            # the lookups that produce the value itself (not those nested in the receiver, e.g. in how branch_params was filled)
+            from ..arrnf import ite_leaves as _leaves
+            tops = [lf for _, lf in _leaves(v)] if v is not None else []
+            ks = [x[2][0][1] for x in tops if x[0] == "call" and x[1][0] == "attr" and x[1][2] == "get" and x[2] and x[2][0][0] == "c"
+                  and isinstance(x[2][0][1], str) and x[2][0][1].startswith(prefix)]
             _sh(len(set(ks)) == 1, "%s of %s is looked up in branch_params under one constant key (%s)" % (pn, t, ks))
             keys[prefix] = ks[0][len(prefix):]
         run.ob("keyword|%s|one-suffix" % t, len(set(keys.values())) == 1,
@@ -112,7 +121,7 @@ def r18_1(run):
         d = {"include_comp": C(True), "weight_getter": C(None)}
         for pn, dv in d.items():
             v = args[pn]
-            dflt = [x[2][1] for x in walk(v) if x[0] == "call" and x[1][0] == "attr" and x[1][2] == "get" and len(x[2]) == 2]
+            dflt = [x[2][1] for _, x in _leaves(v) if x[0] == "call" and x[1][0] == "attr" and x[1][2] == "get" and len(x[2]) == 2]
             run.ob("keyword|%s|default|%s" % (t, pn), dflt == [dv], "a table without explicit keyword gets the documented default (%s)" % (dv[1],),
                    run.where(f, call.node))
     run.ob("branch-tables-found", n_tab >= 10, "branch component tables: %d" % n_tab, w)
@@ -192,6 +201,9 @@ def r18_2(run):
     run.ob("out-of-service-junctions-removed", ok, "out-of-service junctions are removed under respect_status_junctions", run.where(g, g.node))
     ad = [c for c in rg.calls() if c.fn[0] == "attr" and c.fn[2] == "add_node" and c.loops]
     ok = any(contains(rg.loops[c.loops[-1]]["iter"], expect(ix, g, "set(net.junction.index)")) and c.args == (("loop", c.loops[-1], 0),) for c in ad)
+    # ... or all at once: mg.add_nodes_from(<a set built from the junction index>)
+    ok = ok or any(c.fn[0] == "attr" and c.fn[2] == "add_nodes_from" and c.args and contains(c.args[0], expect(ix, g, "set(net.junction.index)"))
+                   for c in rg.calls())
     run.ob("isolated-junctions-added", ok, "junctions without edges are graph nodes as well", run.where(g, g.node))
     run.floor(8)
 
